@@ -111,6 +111,12 @@ def cont1_2(ctx: Ctx) -> None:
             ctx.R.fail("CONT-1", mod, esc, f"{why}: the handler around `{label}` re-raises or leaves the engine loop: the fault is not contained / outer frames are lost",
                        construct=f"{label} -> {norm(esc)}")
             continue
+        call_loops = enclosing_loops(mod, call)
+        try_loops = enclosing_loops(mod, t)
+        if call_loops and (not try_loops or try_loops[0] is not call_loops[0]):
+            ctx.R.fail("CONT-1", mod, t, f"{why}: the try that contains a fault of `{label}` encloses the whole `{norm(call_loops[0]).splitlines()[0][:50]}` loop instead of one iteration: "
+                       "one failing item ends the loop and the remaining items are skipped (never elaborated)", construct=f"{label}: try outside its loop")
+            continue
         if "FrameIterator" in why:
             il = enclosing_loops(mod, t)
             ends = [n for st in h.body for n in [st] + contains(st, (ast.Break, ast.Return, ast.Raise)) if isinstance(n, ast.Break)]
@@ -653,6 +659,74 @@ def nonempty_of(t: ast.AST) -> Optional[str]:
     return None
 
 
+def eng34(ctx: Ctx) -> None:
+    """ENG-3 every item produced by unwrapping is queued one level deeper, with its origin chosen by better_origin;
+    ENG-4 the unwrap loop drains the unwrap queue completely before a frame is elaborated (prune-by-depth relies on it)"""
+    mod = _engine_mod(ctx)
+    fn = mod.fn("extract_iter")
+    main = _main_loop(fn)
+    inner = [s_ for s_ in main.body if isinstance(s_, ast.While)]
+    if not inner:
+        raise AnalysisError("ENG-3: inner unwrap loop not found")
+    loop = inner[0]
+    pushes = [c for c in ast.walk(loop) if isinstance(c, ast.Call) and norm(c.func) in ("to_unwrap.appendleft", "to_unwrap.append")]
+    if not pushes:
+        ctx.R.undecided("ENG-3", "no push onto the unwrap queue inside the unwrap loop")
+    for c in pushes:
+        a = c.args[0] if c.args else None
+        elts = None
+        if isinstance(a, ast.Tuple) and len(a.elts) == 3:
+            elts = a.elts
+        elif isinstance(a, ast.Call) and len(a.args) == 3:
+            elts = a.args  # a NamedTuple constructor
+        if elts is None:
+            ctx.R.undecided("ENG-3", f"push `{norm(c)[:60]}` is not a 3-tuple")
+            continue
+        o, it_, d = (norm(x) for x in elts)
+        if d != "depth + 1":
+            ctx.R.fail("ENG-3", mod, c, f"an item produced by unwrapping is queued at `{d}` instead of one level below its parent (`depth + 1`): a prune or replacement issued by the frame it "
+                       "unwraps to then also removes its following siblings (they no longer look 'outward')", construct=f"unwrap push depth {d}")
+        elif not (o.startswith("better_origin(") and o.endswith(", origin)") and o[len("better_origin("):-len(", origin)")] == it_):
+            ctx.R.fail("ENG-3", mod, c, f"the origin of an unwrapped item must be better_origin(<item>, origin); the code queues `{o}`: a coroutine / async generator reached through a wrapper keeps the outer object as origin",
+                       construct=f"unwrap push origin {o}")
+        else:
+            ctx.R.ok("ENG-3", f"unwrap results are queued as ({o}, {it_}, depth + 1)")
+    # ENG-4: what can make the loop stop while to_unwrap is still non-empty?
+    t = loop.test
+    conj = list(t.values) if isinstance(t, ast.BoolOp) and isinstance(t.op, ast.And) else [t]
+    if not any(isinstance(x, ast.Name) and x.id == "to_unwrap" for x in conj):
+        ctx.R.undecided("ENG-4", "unwrap loop condition does not test to_unwrap directly")
+        return
+    rest = [x for x in conj if not (isinstance(x, ast.Name) and x.id == "to_unwrap")]
+    # elements of to_elaborate are (item, depth) tuples: every append is a tuple display
+    apps = [c for c in ast.walk(fn) if isinstance(c, ast.Call) and norm(c.func) in ("to_elaborate.append", "to_elaborate.appendleft")]
+    all_tuples = bool(apps) and all(c.args and isinstance(c.args[0], ast.Tuple) for c in apps)
+
+    def always_true(e: ast.AST) -> Optional[bool]:
+        if isinstance(e, ast.BoolOp) and isinstance(e.op, ast.Or):
+            rs = [always_true(x) for x in e.values]
+            return True if any(r is True for r in rs) else (None if any(r is None for r in rs) else False)
+        if isinstance(e, ast.UnaryOp) and isinstance(e.op, ast.Not):
+            r = always_true(e.operand)
+            return None if r is None else (not r)
+        if isinstance(e, ast.Call) and norm(e.func) == "isinstance" and all_tuples and norm(e.args[0]) == "to_elaborate[0]" and "Frame" in norm(e.args[1]):
+            return False  # a tuple is never a Frame
+        if isinstance(e, ast.Constant):
+            return bool(e.value)
+        return None
+    if not rest:
+        ctx.R.ok("ENG-4", "the unwrap loop runs until the unwrap queue is empty")
+    else:
+        verdicts = [always_true(x) for x in rest]
+        if all(v is True for v in verdicts):
+            ctx.R.ok("ENG-4", "the unwrap loop runs until the unwrap queue is empty", "its extra condition is vacuous: to_elaborate holds (item, depth) tuples, so isinstance(to_elaborate[0], Frame) is never true")
+            ctx.R.note("ENG-4: the 'lazy unwrapping' condition of extract_iter is always true (it tests a tuple against Frame); the engine relies on the resulting eager drain")
+        else:
+            ctx.R.fail("ENG-4", mod, loop, "the unwrap loop can stop while items are still waiting to be unwrapped: a frame is then elaborated before its later siblings are expanded, "
+                       "and a prune/replacement by that frame stops at the first unexpanded sibling (queued at a smaller depth) instead of removing the frame's callees",
+                       construct=f"unwrap loop condition {norm(t)[:100]}")
+
+
 def yf1(ctx: Ctx) -> None:
     """YF-1 yields_frames wraps in FrameIterator; PRUNE is (); the engine steps only FrameIterators"""
     cm = ctx.P.mod("_customization")
@@ -700,6 +774,16 @@ def ctx_rules(ctx: Ctx) -> None:
     ctx.R.saw(mod, "fill_context")
     loops = [s for s in fn.body if isinstance(s, ast.For)]
     if len(loops) != 1:
+        wl = [s for s in fn.body if isinstance(s, ast.While) and any(isinstance(c, ast.Call) and norm(c.func) in ("unwrap_context", "elaborate_context") for c in ast.walk(s))]
+        if len(wl) == 1:
+            # a hand-rolled guard: a counter compared with a literal.  It bounds the loop only if nothing resets it.
+            cnts = {norm(c.left) for c in ast.walk(wl[0]) if isinstance(c, ast.Compare) and isinstance(c.left, ast.Name) and isinstance(c.comparators[0], ast.Constant)
+                    and isinstance(c.ops[0], (ast.Gt, ast.GtE))}
+            for cv_ in cnts:
+                resets = [a for a in ast.walk(wl[0]) if isinstance(a, ast.Assign) and norm(a.targets[0]) == cv_]
+                if resets:
+                    ctx.R.fail("CTX-3", mod, resets[0], f"fill_context's step counter `{cv_}` is reset inside the unwrap loop: a cycle of managers that passes through the resetting branch is never "
+                               "detected (more than 100 steps must yield an error, not a hang)", construct=f"{cv_} reset inside the unwrap loop")
         raise AnalysisError("CTX: the bounded loop of fill_context vanished")
     loop = loops[0]
     cvar = fn.args.args[0].arg
@@ -1066,7 +1150,10 @@ def ori_rules(ctx: Ctx) -> None:
     c2 = [c for c in calls_in(ec, True) if ctx.P.resolve_call(mod, c).is_pkg("_extract", "extract_iter")]
     if len(c1) != 1 or len(c2) != 1:
         raise AnalysisError("ORI-1: extract_iter calls not found")
-    if norm(c1[0].args[0]) == eo.args.args[0].arg and norm(c2[0].args[0]) == ec.args.args[0].arg and len(c1[0].args) == len(c2[0].args) == 2:
+    if c1[0].keywords or c2[0].keywords or len(c1[0].args) != len(c2[0].args):
+        ctx.R.fail("ORI-1", mod, c1[0], f"extract_outermost calls the engine as `{norm(c1[0])[:80]}` while extract calls it as `{norm(c2[0])[:80]}`: "
+                   "the first frame is no longer the same computation (its next_inner / contexts / flags can differ)", construct="extract_iter argument shapes differ")
+    elif norm(c1[0].args[0]) == eo.args.args[0].arg and norm(c2[0].args[0]) == ec.args.args[0].arg and len(c1[0].args) == len(c2[0].args) == 2:
         ctx.R.ok("ORI-1", "extract_outermost and extract_child consume the same generator function with (stackitem, <fresh error list>)")
     else:
         ctx.R.fail("ORI-1", mod, c1[0], "extract_outermost must run the same iterator on its own stackitem as extract does")
@@ -1089,26 +1176,50 @@ def ori_rules(ctx: Ctx) -> None:
     h = hs[0]
     errs = norm(c1[0].args[1])
 
-    def outcome(body: List[ast.stmt], n: int) -> str:
+    def absval(e: ast.AST, env: Dict[str, str]) -> str:
+        if isinstance(e, ast.Constant) and e.value is None:
+            return "none"
+        if isinstance(e, ast.Subscript) and norm(e.value) == errs:
+            return "recorded"
+        if isinstance(e, ast.Call) and norm(e.func) == "ExceptionGroup" and errs in [norm(a) for a in e.args]:
+            return "group"
+        if isinstance(e, ast.Call) and norm(e.func).endswith("Error"):
+            return "new"
+        if isinstance(e, ast.Name) and e.id in env:
+            return env[e.id]
+        return "?"
+
+    def test(t: ast.AST, n: int, env: Dict[str, str]) -> Optional[bool]:
+        r = _len_test(t, errs, n)
+        if r is not None:
+            return r
+        if isinstance(t, ast.Compare) and len(t.ops) == 1 and isinstance(t.left, ast.Name) and t.left.id in env and norm(t.comparators[0]) == "None":
+            v = env[t.left.id]
+            if v == "?":
+                return None
+            return (v != "none") if isinstance(t.ops[0], ast.IsNot) else (v == "none")
+        if isinstance(t, ast.Name) and t.id in env and env[t.id] != "?":
+            return env[t.id] != "none"
+        return None
+
+    def outcome(body: List[ast.stmt], n: int, env: Optional[Dict[str, str]] = None) -> str:
+        env = {} if env is None else env
         for st in body:
             if isinstance(st, ast.If):
-                t = _len_test(st.test, errs, n)
+                t = test(st.test, n, env)
                 if t is None:
                     return "?"
-                r = outcome(st.body if t else st.orelse, n)
+                r = outcome(st.body if t else st.orelse, n, env)
                 if r != "fall":
                     return r
+            elif isinstance(st, (ast.Assign, ast.AnnAssign)) and isinstance(st.targets[0] if isinstance(st, ast.Assign) else st.target, ast.Name) and st.value is not None:
+                env[norm(st.targets[0] if isinstance(st, ast.Assign) else st.target)] = absval(st.value, env)
             elif isinstance(st, ast.Raise):
                 e = st.exc
                 if e is None:
                     return "reraise-stopiteration"
-                if isinstance(e, ast.Subscript) and norm(e.value) == errs:
-                    return "raise-recorded"
-                if isinstance(e, ast.Call) and norm(e.func) == "ExceptionGroup" and errs in [norm(a) for a in e.args]:
-                    return "raise-group"
-                if isinstance(e, ast.Call) and norm(e.func).endswith("Error"):
-                    return "raise-new"
-                return "raise-other"
+                v = absval(e, env)
+                return {"recorded": "raise-recorded", "group": "raise-group", "new": "raise-new"}.get(v, "?")
             elif isinstance(st, ast.Return):
                 return "return"
         return "fall"
@@ -1118,6 +1229,8 @@ def ori_rules(ctx: Ctx) -> None:
         got = outcome(h.body, n)
         if got in w:
             ctx.R.ok("ORI-2", f"no frame and {n} recorded error(s): {got}")
+        elif got == "?":
+            ctx.R.undecided("ORI-2", f"cannot evaluate what extract_outermost raises with {n} recorded error(s)")
         else:
             ctx.R.fail("ORI-2", mod, h, f"extract_outermost with no frame and {n} recorded error(s) must {w[0]}, the handler does `{got}`", construct=f"StopIteration handler, {n} errors")
     # ORI-3 Frame construction dominated by the origin filter
@@ -1182,7 +1295,7 @@ def ori_rules(ctx: Ctx) -> None:
 
 
 C05 = [cont1_2, cont3, cont4, cont5, def1, contw]
-C10 = [eng1, eng2, yf1, cont3]
+C10 = [eng1, eng2, eng34, yf1, cont3]
 C11 = [ctx_rules, ctx5]
 C13 = [opt1, opt2, opt3, opt4, opt56, opt7, ctx_rules]
 C16 = [ori_rules]
